@@ -78,3 +78,8 @@ chk("C19", "exploration", "runtime monitoring: Go race detector on the race-inst
     "Four monitors: the -race build of knut over multi-file journals and every processor combination under perturbed schedules (any DATA RACE block is a violation); planted stage failures must produce a non-zero exit naming a planted fault, never a hang or success; the stage/day event log of the pipeline must satisfy the ownership hand-over specification and the printed census must equal the union of the files; in-process cpr.Seq runs and concurrent registry histories run under -race, the latter checked with porcupine against the sequential interning model.",
     "The race detector only sees overlapping accesses in the schedules produced; perturbation widens, it does not enumerate. Porcupine timeouts are inconclusive.",
     "DESIGN.md §4 C19")
+
+chk("C16", "exploration", "runtime monitoring: real transcode output read by an independent line-based beancount reader; balance, ordering, account state machine and transaction multiset against the abstract model and the exact-rational valuation reference",
+    "The beancount text of generated priced journals (every commodity tried as V) is read by the harness's own reader: every transaction must sum to exactly zero in the declared operating currency, entries must be chronological, every account used must be open (by date) and not used after its close (by output order), and the multiset of transactions must equal the model's user bookings plus the expected daily value adjustments, amounts within an explicit truncation budget.",
+    "Tree-shaped price graphs only; adjustments whose expected amount is within budget of zero may be present or absent; accrued journals take user transactions from knut print.",
+    "DESIGN.md §4 C16")
